@@ -9,11 +9,11 @@ _reg('isa', ['I1', 'I4', 'I6'])
 _reg('jit', ['J1'])
 _reg('recip', ['R1', 'R2', 'R3'])
 _reg('api', ['H1', 'D2', 'I7'])
-_reg('life', ['H6', 'H7', 'H3'])
+_reg('life', ['H6', 'H7', 'H3', 'K1'])
 _reg('sshash', ['S4', 'D1', 'S1', 'S5'])
 _reg('vmloop', ['I8'])
 _reg('foot', ['F1'])
-_reg('frame', ['J3', 'J4'])
+_reg('frame', ['J3', 'J4', 'J5'])
 _reg('portable', ['P1', 'P3', 'P4'])
 
 PROPS = {
@@ -36,7 +36,7 @@ PROPS = {
  'C18': dict(level='other', lemmas=['R1', 'R2', 'R3'],
    files=['src/reciprocal.c', 'src/reciprocal.h', 'src/asm/randomx_reciprocal.inc', 'src/common.hpp', 'src/bytecode_machine.cpp', 'src/jit_compiler_x86.cpp', 'src/dataset.cpp', 'src/superscalar.cpp'],
    explanation='TODO', trusted=['Euclidean characterisation of unsigned division'], outside=[]),
- 'C08': dict(level='translation_validation', lemmas=['D2', 'D1', 'S4'],
+ 'C08': dict(level='translation_validation', lemmas=['D2', 'D1', 'S4', 'J5'],
    files=['src/randomx.cpp', 'src/dataset.cpp', 'src/dataset.hpp', 'src/superscalar.cpp', 'src/jit_compiler_x86.cpp', 'src/jit_compiler_x86_static.S', 'src/vm_interpreted_light.cpp'],
    explanation='TODO', trusted=[], outside=[]),
  'C13': dict(level='other', lemmas=['H1'],
@@ -48,7 +48,7 @@ PROPS = {
  'C16': dict(level='other', lemmas=['H7'],
    files=['src/vm_compiled.cpp', 'src/vm_compiled_light.cpp', 'src/dataset.cpp', 'src/virtual_memory.c', 'src/jit_compiler_x86.cpp', 'src/randomx.cpp'],
    explanation='TODO', trusted=[], outside=[]),
- 'C03': dict(level='other', lemmas=['H3', 'H1', 'H6'],
+ 'C03': dict(level='other', lemmas=['H3', 'H1', 'H6', 'K1'],
    files=['src/randomx.cpp', 'src/virtual_machine.cpp', 'src/virtual_machine.hpp', 'src/vm_compiled_light.cpp', 'src/vm_interpreted_light.cpp', 'src/vm_compiled.cpp', 'src/dataset.hpp', 'src/aes_hash.cpp'],
    explanation='TODO', trusted=[], outside=[]),
  'C09': dict(level='translation_validation', lemmas=['S4', 'S1', 'S5'],
@@ -63,7 +63,7 @@ PROPS = {
  'C02': dict(level='other', lemmas=['H1', 'F1', 'I7', 'I8', 'I1', 'B1', 'B2', 'B3', 'B4', 'A1', 'A2', 'A3', 'A5', 'S1', 'S4', 'S5', 'D1', 'G1', 'G4', 'R1'],
    files=['doc/specs.md', 'src/randomx.cpp', 'src/virtual_machine.cpp', 'src/vm_interpreted.cpp', 'src/bytecode_machine.cpp', 'src/bytecode_machine.hpp', 'src/aes_hash.cpp', 'src/dataset.cpp', 'src/superscalar.cpp', 'src/blake2_generator.cpp', 'src/argon2_core.c', 'src/argon2_ref.c', 'src/blake2/blake2b.c', 'src/configuration.h'],
    explanation='TODO', trusted=[], outside=[]),
- 'C01': dict(level='other', lemmas=['J1', 'I1', 'I8', 'A2', 'A3', 'A5', 'D1', 'D2', 'S4', 'G2', 'G4', 'H1', 'H7'],
+ 'C01': dict(level='other', lemmas=['K1', 'J3', 'J1', 'I1', 'I8', 'A2', 'A3', 'A5', 'D1', 'D2', 'S4', 'G2', 'G4', 'H1', 'H7'],
    files=['src/randomx.cpp', 'src/vm_interpreted.cpp', 'src/vm_interpreted_light.cpp', 'src/vm_compiled.cpp', 'src/vm_compiled_light.cpp', 'src/virtual_machine.cpp', 'src/jit_compiler_x86.cpp', 'src/jit_compiler_x86_static.S', 'src/aes_hash.cpp', 'src/soft_aes.cpp', 'src/dataset.cpp'],
    explanation='TODO', trusted=[], outside=[]),
  'C06': dict(level='other', lemmas=['I1', 'J1', 'I8', 'I7', 'D1', 'D2', 'A5', 'B2', 'B3', 'H1', 'S4', 'G4'],
